@@ -136,6 +136,14 @@ func c15Sequential(r *ev.Run) {
 		}
 		var trace []string
 		n := 1 + rnd.Intn(60)
+		// lists a reader still holds: Healthy() hands its slice out without a copy and callers (load balancer pick, redis
+		// upstream) walk it without a lock, so a list that was handed out must never change afterwards
+		type heldList struct {
+			list []*host.Host
+			was  []*host.Host
+			at   int
+		}
+		var held []heldList
 		for step := 0; step < n; step++ {
 			switch x := rnd.Intn(100); {
 			case x < 30:
@@ -196,6 +204,22 @@ func c15Sequential(r *ev.Run) {
 			for h := range everMember {
 				if !members[h] && !isClosed(h.WaitRemoved()) {
 					probs = append(probs, "removed-member-not-marked-removed: "+hostStr(h))
+				}
+			}
+			for _, h := range held {
+				same := len(h.list) == len(h.was)
+				for i := 0; same && i < len(h.was); i++ {
+					same = h.list[i] == h.was[i]
+				}
+				if !same {
+					probs = append(probs, fmt.Sprintf("handed-out-list-changed: the usable hosts handed out after step %d were [%s] and now read [%s]", h.at, hostsStr(h.was), hostsStr(h.list)))
+				}
+				r.Count("held_lists_rechecked", 1)
+			}
+			if l := set.Healthy(); len(l) > 0 {
+				held = append(held, heldList{l, append([]*host.Host(nil), l...), step})
+				if len(held) > 3 {
+					held = held[1:]
 				}
 			}
 			if len(probs) > 0 {
@@ -453,7 +477,7 @@ func c15Hysteresis(r *ev.Run) {
 }
 
 func c15(r *ev.Run) {
-	r.Rule("sequential: PRNG operation sequences (length 1-60) over 1-8 addresses x {main, backup}: Add (fresh object, same address other type, same object again), Remove (fresh object as production does, known object), ReplaceAll, MarkHostHealthy/Unhealthy on current, removed and stale objects, with the full view equation after every step; concurrent: writers / markers / readers on one set, equation at the join; hysteresis: scripted check outcomes (random / threshold-1 edges / alternation / long runs) x thresholds {1,2,3,7} through the real monitor one round at a time; distinct = distinct (address count, length class) / (writers) / (fall, rise, pattern) tuples")
+	r.Rule("sequential: PRNG operation sequences (length 1-60) over 1-8 addresses x {main, backup}: Add (fresh object, same address other type, same object again), Remove (fresh object as production does, known object), ReplaceAll, MarkHostHealthy/Unhealthy on current, removed and stale objects, with the full view equation after every step and the last three handed-out usable lists re-read after every step (a handed-out list must not change); concurrent: writers / markers / readers on one set, equation at the join; hysteresis: scripted check outcomes (random / threshold-1 edges / alternation / long runs) x thresholds {1,2,3,7} through the real monitor one round at a time; distinct = distinct (address count, length class) / (writers) / (fall, rise, pattern) tuples")
 	r.Assume("re-adding an object that was removed, or marking an object before it ever became a member, is outside the property (no caller keeps such objects; endpointsToHosts always allocates)")
 	r.Assume("objects are compared by identity: a removed object must never be reported even if another object with the same address is a member")
 	r.Assume("health flips on the (threshold+1)-th consecutive contrary result in the code; the oracle accepts a flip at >= threshold and demands one by threshold+1 ('at least the configured number')")
